@@ -229,7 +229,11 @@ func (e *Engine) buildReplay(r *FnResult, o *Obl, smt string) *ReplayFile {
 		bounds = append(bounds, smallBounds(c, it.term, it.typ)...)
 	}
 	bounds = append(bounds, mapDomainBounds(c, smt)...)
-	ms, res, err := openModel(smt, bounds, e.timeoutS)
+	ib := ifaceBounds(c)
+	ms, res, err := openModel(smt, append(append([]string{}, bounds...), ib...), e.timeoutS)
+	if ms == nil {
+		ms, res, err = openModel(smt, ib, e.timeoutS)
+	}
 	if ms == nil {
 		ms, res, err = openModel(smt, nil, e.timeoutS)
 	}
@@ -495,7 +499,15 @@ func runReplay(rf *ReplayFile, repoDir, workDir string) {
 	os.WriteFile(src, []byte(rf.TestSource), 0o644)
 	ov := filepath.Join(workDir, sanitizeFile(rf.Obligation)+"_overlay.json")
 	target := filepath.Join(rf.TestPkgDir, "zz_verif_replay_test.go")
-	js, _ := json.Marshal(map[string]any{"Replace": map[string]string{target: src}})
+	repl := map[string]string{target: src}
+	// the package's own test files are not needed for the replay (and some import packages whose sources are
+	// absent in this sandbox): hide them
+	if others, err := filepath.Glob(filepath.Join(rf.TestPkgDir, "*_test.go")); err == nil {
+		for _, f := range others {
+			repl[f] = ""
+		}
+	}
+	js, _ := json.Marshal(map[string]any{"Replace": repl})
 	os.WriteFile(ov, js, 0o644)
 	cmd := exec.Command("bash", "-c", fmt.Sprintf("ulimit -v 8000000; cd %q && go test -overlay %q -vet=off -v -count=1 -timeout 60s -run '^TestVerifReplay$' . 2>&1", rf.TestPkgDir, ov))
 	cmd.Env = append(os.Environ(), "GOFLAGS=-mod=mod", "GOPROXY=off", "GOSUMDB=off", "GOTOOLCHAIN=local")
